@@ -216,6 +216,98 @@ func runC16Case(cc c16Case) (string, string) {
 	return "", ""
 }
 
+// runC16RaceCase: two close initiators that both start before either Close frame is written. A Write is stuck in the transport
+// (it holds the frame lock); a local Close / the CloseRead policy close queues behind it; then the reader meets a protocol
+// violation, a message over the read limit or the peer's own Close frame, whose Close frame / echo queues as well. When the
+// transport accepts writes again exactly one Close frame may follow.
+func runC16RaceCase(client bool, first, second string) (string, string) {
+	a, b := newPipe()
+	gate := make(chan struct{}, 256)
+	a.writeGate = gate
+	c := websocket.VerifNewConn(a, client, websocket.VerifCopts{}, 0)
+	peer := newRawPeer(b, !client)
+	defer b.Close()
+	defer c.CloseNow()
+	bg, cancel := context.WithTimeout(context.Background(), 20*time.Second)
+	defer cancel()
+	if second == "read-limit" {
+		c.SetReadLimit(10)
+	}
+	// the stuck writer: larger than the write buffer, so that it blocks in the transport while holding the frame lock
+	wret := make(chan error, 1)
+	go func() { wret <- c.Write(bg, websocket.MessageBinary, make([]byte, 20000)) }()
+	time.Sleep(30 * time.Millisecond)
+	closeRet := make(chan error, 2)
+	readerDone := make(chan struct{})
+	if first == "closeread" {
+		c.CloseRead(bg)
+		close(readerDone)
+	} else {
+		go func() { closeRet <- c.Close(websocket.StatusNormalClosure, "bye") }()
+		time.Sleep(30 * time.Millisecond)
+		go func() {
+			defer close(readerDone)
+			for {
+				if _, _, err := c.Read(bg); err != nil {
+					return
+				}
+			}
+		}()
+	}
+	switch second {
+	case "proto-error":
+		peer.writeFrame(RawFrame{Fin: true, Op: 1, Rsv2: true, Payload: []byte("x")})
+	case "read-limit":
+		peer.writeFrame(RawFrame{Fin: true, Op: 1, Payload: []byte("more than ten bytes of text")})
+	case "peer-close":
+		peer.writeFrame(RawFrame{Fin: true, Op: 8, Payload: []byte{0x03, 0xe9, 'g', 'o'}})
+	case "data": // for the CloseRead policy close; followed by a protocol violation is not possible (the reader is gone)
+		peer.writeFrame(RawFrame{Fin: true, Op: 1, Payload: []byte("unexpected")})
+	}
+	time.Sleep(60 * time.Millisecond)
+	if first == "closeread" {
+		// the second initiator is the user
+		go func() { closeRet <- c.Close(websocket.StatusGoingAway, "user close") }()
+		time.Sleep(30 * time.Millisecond)
+	}
+	// the transport accepts writes again
+	var trace []RawFrame
+	peerDone := make(chan struct{})
+	go func() {
+		defer close(peerDone)
+		for {
+			f, err := peer.readFrame(3 * time.Second)
+			if err != nil {
+				return
+			}
+			trace = append(trace, *f)
+		}
+	}()
+	for i := 0; i < 200; i++ {
+		select {
+		case gate <- struct{}{}:
+		default:
+		}
+	}
+	time.Sleep(300 * time.Millisecond)
+	c.CloseNow()
+	b.Close()
+	select {
+	case <-peerDone:
+	case <-time.After(4 * time.Second):
+	}
+	closes := 0
+	for _, f := range trace {
+		if f.Op == 8 {
+			closes++
+		}
+	}
+	if closes > 1 {
+		return "second-close-frame", fmt.Sprintf("client=%v first=%s second=%s: %d Close frames on the wire; trace ops %s", client, first, second, closes, opsOf(trace))
+	}
+	return "", ""
+}
+
 func opsOf(tr []RawFrame) string {
 	s := ""
 	for i, f := range tr {
@@ -294,6 +386,18 @@ func runC16(ctx *runCtx) {
 		rep.count("trigger:" + cc.Trigger)
 		if r.sh != "" {
 			rep.violate(Violation{Kind: "property", Shape: r.sh + ":" + cc.Trigger, What: fmt.Sprintf("%+v: %s", cc, r.w), Replay: cc})
+		}
+	}
+	// two close initiators queued behind a stuck frame write
+	for _, client := range []bool{true, false} {
+		for _, pr := range [][2]string{{"close", "proto-error"}, {"close", "read-limit"}, {"close", "peer-close"}, {"closeread", "data"}} {
+			client, pr := client, pr
+			sh, w := guarded(40*time.Second, func() (string, string) { return runC16RaceCase(client, pr[0], pr[1]) })
+			rep.eval(fmt.Sprintf("racing-closers/%v/%s/%s", client, pr[0], pr[1]))
+			rep.count("trigger:racing-closers")
+			if sh != "" {
+				rep.violate(Violation{Kind: "property", Shape: sh + ":racing-closers", What: w, Replay: map[string]interface{}{"scenario": "racing-closers", "client": client, "first": pr[0], "second": pr[1]}})
+			}
 		}
 	}
 	cirTraceValidation(ctx, cirTraceN(ctx))
